@@ -54,7 +54,7 @@ package CFB8
 //@   loop 0: unroll 0
 //@   loop 1: unroll 0
 //@   loop 2: modifies cf.iv[0:16], dst[16:len(src)]
-//@   loop 2: invariant -1 <= rangeindex && rangeindex < len(src) - 16 && len(src) > 32
+//@   loop 2: invariant -1 <= rangeindex && rangeindex < len(src) - 16 && len(src) > 16
 //@   loop 2: invariant (rangeindex >= 0 && i == rangeindex) || rangeindex == -1
 //@   loop 2: invariant all(j, 0, 16, dst[j] == old(src[j]) ^ hi8(aesE(stream(cf.c), vec16(k, cfbR(cf, src, dst, j, k)))))
 //@   loop 2: invariant all(j, 16, rangeindex + 17, dst[j] == old(src[j]) ^ hi8(aesE(stream(cf.c), vec16(k, cfbC(cf, src, dst, j + k - 16)))))
